@@ -521,7 +521,7 @@ pub fn check_case(project: &Project, configs: &Value, dup_names: bool, rep: &mut
 }
 
 fn run(cfg: &Cfg) -> Report {
-    let shards = cfg.tier.pick(128usize, 1024usize);
+    let shards = cfg.tier.pick(512usize, 1024usize);
     let per_shard = cfg.tier.pick(1000usize, 2000usize);
     let mut rep = par_shards(cfg, "c16", shards, |idx, rng, rep| {
         for i in 0..per_shard {
